@@ -308,6 +308,14 @@ fn borrow_checks(o: &mut Oracle, sink: &mut Sink, text: &str, bytes: &[u8], read
         if a.iter().map(|s| s.as_str()).collect::<Vec<_>>() != *b { o.fail(if tagged { "C09-borrowed-str-ignores-tag" } else { "C09-borrow-text-differs" }, "Vec<&str> differs from Vec<String>", bytes, &format!("{b:?}"), &format!("{a:?}")); }
     }
     if bv.is_ok() && ov.is_err() { o.fail(iff_id, "Vec<&str> succeeded although Vec<String> fails", bytes, "ok", "err"); }
+    // a flat sequence of untagged scalars and aliases to such scalars: every element can be lent exactly when the
+    // RAW parser lent the defining scalar (an alias delivers the anchored scalar, which is verbatim in the input)
+    if let (Ok(_), Some(all_lent)) = (&ov, flat_seq_all_lent(text.strip_prefix('\u{feff}').unwrap_or(text))) {
+        sink.count(if all_lent { "borrow.seq_all_lent" } else { "borrow.seq_not_all_lent" });
+        if all_lent != bv.is_ok() {
+            o.fail("C09-borrow-iff-seq", "Vec<&str> over a flat sequence of scalars / aliases: success differs from what the raw parser lends", bytes, if bv.is_ok() { "ok" } else { "err" }, if all_lent { "ok" } else { "err" });
+        }
+    }
     // reader input never lends: asking the reader-side deserializer for a borrowed str is refused
     if reader_ok && owned.is_ok() {
         beat(&format!("lend: {}", hex_bytes(bytes)));
@@ -317,11 +325,39 @@ fn borrow_checks(o: &mut Oracle, sink: &mut Sink, text: &str, bytes: &[u8], read
     }
 }
 
+/// `Some(all elements lent)` when `text` is one document holding a flat sequence of untagged scalars and aliases to
+/// earlier anchored scalars of that sequence (decided on the RAW parser's events, not on serde-saphyr's)
+fn flat_seq_all_lent(text: &str) -> Option<bool> {
+    use saphyr_parser::{Event, Parser};
+    let mut lent: BTreeMap<usize, bool> = BTreeMap::new();
+    let mut all = true;
+    let mut n = 0;
+    let mut state = 0; // 0 before seq, 1 inside, 2 after
+    for item in Parser::new_from_str(text) {
+        let (ev, _) = item.ok()?;
+        match (state, ev) {
+            (0, Event::StreamStart) | (0, Event::DocumentStart(_)) => {}
+            (0, Event::SequenceStart(0, None)) => state = 1,
+            (1, Event::Scalar(v, _, anchor, None)) => {
+                let b = matches!(v, std::borrow::Cow::Borrowed(_));
+                if anchor != 0 { lent.insert(anchor, b); }
+                all &= b;
+                n += 1;
+            }
+            (1, Event::Alias(id)) => { all &= *lent.get(&id)?; n += 1; }
+            (1, Event::SequenceEnd) => state = 2,
+            (2, Event::DocumentEnd) | (2, Event::StreamEnd) => {}
+            _ => return None,
+        }
+    }
+    if state == 2 && n > 0 { Some(all) } else { None }
+}
+
 fn corpus_docs(rng: &mut Rng, thorough: bool) -> Vec<Vec<u8>> {
     let mut v: Vec<Vec<u8>> = Vec::new();
     for s in ["", "~", "a", "a\n", "a: 1\n", "- a\n- b\n", "k: v\nk2: [1, 2]\n", "---\na\n...\n", "a\n...\n", "a\n...\njunk: [\n", "a\n---\nb\n",
         "é: ü\n", "- €\n- 😀\n", "name: x\nn: 3\n", "name: é€😀\nn: -7\n", "A", "B: 5", "C: {x: y}", "[1, 2, 3]", "[1, 2", "{a: 1", "a: b: c", "\"esc\\u00e9\\n\"",
-        "'it''s'", ">\n folded\n text\n", "|\n lit\n eral\n", "k: >-\n  a\n  b\n", "true", "1.5", "-3", "0x1F", "null", "&a x", "- &a x\n- *a\n", "*x",
+        "'it''s'", ">\n folded\n text\n", "|\n lit\n eral\n", "k: >-\n  a\n  b\n", "true", "1.5", "-3", "0x1F", "null", "&a x", "- &a x\n- *a\n", "*x", "[&a hello, *a, *a]", "- &a 'q'\n- *a\n- b\n", "- &a \"e\\n\"\n- *a\n", "- x\n- &b é€\n- *b\n- *b\n", "- &a \"plain\"\n- *a\n",
         "a: 1\r\nb: 2\r\n", "a:\t1\n", "# only comment\n", "a: 1 # c\n", "? a\n: b\n", "!!str 5", "key: 'é'\n", "\"a\\\n  b\"", "- \n- ~\n", "a: |\n  é\n  €\n",
         "x: \"\\ud83d\\ude00\"", "%YAML", "%TAG", "%YAML 1.2", "%YAML 1.2\n---\na\n", "a\n...\n%x", "%TAG ! tag:x,2000:\n--- !a b\n", "a\n%", "%\n", "--- a\n...\n%YAML 1.2\n--- b", "!!binary aGk=", "!!float 007", "- !!binary aGk=\n- b\n", "!!str plain", "a\u{85}b: 1\n", "a\u{2028}b\n", "\u{feff}", "\u{feff}\u{feff}", "a\u{feff}b\n", "k: \u{feff}\n"] {
         v.push(s.as_bytes().to_vec());
